@@ -13,7 +13,6 @@ import (
 	"os"
 	"reflect"
 	"sort"
-	"strconv"
 	"strings"
 	"testing"
 
@@ -317,7 +316,7 @@ func runEz(c EzCase) vrt.Verdict {
 		}
 		named := false
 		for _, f := range ev.both {
-			if strings.Contains(rootCause(gerr), strconv.Quote(f.name)) {
+			if namesField(gerr, f.name) {
 				named = true
 			}
 		}
@@ -383,7 +382,7 @@ func TestC14Ez(t *testing.T) {
 		Rule: "fixed config type ezConfig (an embedded struct at the root and a pointer-embedded struct inside the aliased Outer struct, both with aliased leaves and no tag of their own; aliased string leaf, aliased struct holding an aliased int and an aliased pointer struct with aliased []string / int64 leaves, aliased string set, aliased string map, an unaliased struct with aliased leaves, and an aliased []EzItem whose element fields carry alias tags: 0..3 elements (1..3 in TOML), each with its own pattern per aliased element field and non-zero values, since inside an unpointerified element the zero value is 'not supplied'); per aliased field neither / primary / alias / both as in the other C14 checks; " +
 			"drawn independently: format json|yaml|toml|cue; ez entry point FileExtensionDecoderConfigEnvFlag | YAML/JSON/TOML/CueConfigEnvFlag | ConfigFileEnvFlag (decoder factory) | ConfigFileEnvFlagDecoderFactoryParams; Params.FileFieldNameEncoder nil (2/5) | UPPER_SNAKE | lower_snake | kebab; Params.DisableAutoSetToSlice on/off (on: the set is written as a map of empty maps; on + nil encoder: the alias mangler is the only mangler of the chain); Params.FlattenAnonymousFields on/off (YAML decoder only); " +
 			"keys of the untagged embedded structs by construction: hoisted in YAML when FlattenAnonymousFields, else the encoder's join of the type-name words when an encoder is set, else promoted in JSON / Cue, lower-cased type name in YAML, type name in TOML; the file is written by the harness and read with an explicit, argument-less flag source; " +
-			"oracle: both => error whose innermost cause quotes the field, else View() equals defaults + supplied leaves; non-trivial = >=2 aliased field instances at different depths with different patterns; distinct = distinct case JSON",
+			"oracle: both => error whose innermost cause quotes the field and whose visible text carries that quoted name too (outside the parenthesised names of enclosing fields), else View() equals defaults + supplied leaves; non-trivial = >=2 aliased field instances at different depths with different patterns; distinct = distinct case JSON",
 		Assumptions: []string{
 			"dials tags of ezConfig start with vfc, so neither the real environment nor the (empty) flag set supplies anything",
 			"the file is a temporary file removed after the case; file watching is off; the context is cancelled after the case",
